@@ -87,3 +87,37 @@ let register_pchunk () =
     | _ -> "ERR args")
 
 let () = register_pchunk_ref := register_pchunk
+
+(* c02.ptrace <n> <min> <max> <d> <datahex> <events|->
+   Replays the recorded channel-operation trace of a run of IndexFromFile on the model
+   (Model/PChunkerTrace.v).  Events, comma separated:
+     s:i:start:size  r:i:j:start:size  e:i:j  k:i:0|1  x:i  t:k:start:size  m:k  p:k
+   Answer: "ok <done 0|1> <start:size,...|->"  |  "FAIL <position of the event the model cannot follow>" *)
+let () =
+  let nat s = nat_of_int (int_of_string s) in
+  let parse_ev (t : string) : PChunkerTrace.gev =
+    match Stdlib.String.split_on_char ':' t with
+    | ["s"; i; a; b] -> PChunkerTrace.GSend (nat i, (nat a, nat b))
+    | ["r"; i; j; a; b] -> PChunkerTrace.GRecv (nat i, nat j, (nat a, nat b))
+    | ["e"; i; j] -> PChunkerTrace.GEmpty (nat i, nat j)
+    | ["k"; i; y] -> PChunkerTrace.GSkip (nat i, (y = "1"))
+    | ["x"; i] -> PChunkerTrace.GExit (nat i)
+    | ["t"; k; a; b] -> PChunkerTrace.GTake (nat k, (nat a, nat b))
+    | ["m"; k] -> PChunkerTrace.GMove (nat k)
+    | ["p"; k] -> PChunkerTrace.GStop (nat k)
+    | _ -> failwith ("bad event " ^ t) in
+  Drv.register "c02.ptrace" (fun args -> match args with
+    | [n; mn; mx; d; data; evs] ->
+        let h = Sha256.h_model in
+        let mn = nat mn and mx = nat mx and d = n_of_string d and data = bytes_of_hex data in
+        let evs = if evs = "-" then [] else Stdlib.List.map parse_ev (Stdlib.String.split_on_char ',' evs) in
+        let s0 = PChunker.pinit mx data (nat n) in
+        (match PChunkerTrace.replay h mn mx d data O evs s0 with
+         | Datatypes.Coq_inr pos -> "FAIL " ^ string_of_int (int_of_nat pos)
+         | Datatypes.Coq_inl s ->
+             let s = PChunkerTrace.finish data s in
+             let out = s.PChunker.p_c.PChunker.k_out in
+             "ok " ^ (if s.PChunker.p_c.PChunker.k_done then "1" else "0") ^ " " ^
+             (if out = [] then "-" else Stdlib.String.concat "," (Stdlib.List.map (fun (a, b) ->
+                string_of_int (int_of_nat a) ^ ":" ^ string_of_int (int_of_nat b)) out)))
+    | _ -> "ERR args")
